@@ -64,13 +64,15 @@ def timeout_with_mapper_(
                 my_id = _id[0]
 
                 def timer_wins():
-                    return _id[0] == my_id
+                    return _id[0] == my_id and not switched
 
                 d = SingleAssignmentDisposable()
                 timer.disposable = d
 
                 def on_next(x: Any) -> None:
+                    nonlocal switched
                     if timer_wins():
+                        switched = True
                         subscription.disposable = other_.subscribe(
                             observer, scheduler=scheduler
                         )
@@ -82,7 +84,9 @@ def timeout_with_mapper_(
                         observer.on_error(e)
 
                 def on_completed() -> None:
+                    nonlocal switched
                     if timer_wins():
+                        switched = True
                         subscription.disposable = other_.subscribe(observer)
 
                 d.disposable = timeout.subscribe(
